@@ -458,6 +458,55 @@ func init() {
 		fmt.Fprintf(&b, "def selectCases : Nat := %d\n", casesInSelect)
 		fmt.Fprintf(&b, "/-- start-up: cursor read from LevelDB under the key, 0 when absent, big-endian bytes otherwise -/\ndef startupReadsCursor : Bool := %s\ndef startupDefaultZero : Bool := %s\ndef startupSetBytes : Bool := %s\n",
 			leanBool(startupGet), leanBool(startupDefaultZero), leanBool(startupSetBytes))
+		// the submission: RelayToCosmos (cmd/ebrelayer/txs) returns only after tx.BroadcastTx has returned
+		txFiles, err := c.ParseDir("cmd/ebrelayer/txs")
+		if err != nil {
+			return err
+		}
+		relay := FindFunc(txFiles, "", "RelayToCosmos")
+		goStmts, selects, chans := 0, 0, 0
+		broadcastDirect := false
+		var followed []string
+		if relay != nil {
+			count := func(n ast.Node) {
+				ast.Inspect(n, func(x ast.Node) bool {
+					switch v := x.(type) {
+					case *ast.GoStmt:
+						goStmts++
+					case *ast.SelectStmt:
+						selects++
+					case *ast.ChanType:
+						chans++
+					case *ast.CallExpr:
+						_ = v
+					}
+					return true
+				})
+			}
+			count(relay.Body)
+			seen := map[string]bool{"RelayToCosmos": true}
+			ast.Inspect(relay.Body, func(x ast.Node) bool {
+				call, ok := x.(*ast.CallExpr)
+				if !ok {
+					return true
+				}
+				fn := c.Src(call.Fun)
+				if fn == "tx.BroadcastTx" {
+					broadcastDirect = true
+				}
+				if id, ok := call.Fun.(*ast.Ident); ok && !seen[id.Name] {
+					if fd := FindFunc(txFiles, "", id.Name); fd != nil && fd.Body != nil {
+						seen[id.Name] = true
+						followed = append(followed, id.Name)
+						count(fd.Body)
+					}
+				}
+				return true
+			})
+		}
+		fmt.Fprintf(&b, "\n/-- `RelayToCosmos` and the package functions it calls (followed one level): `go` statements, `select` statements,\n    channel types; whether `tx.BroadcastTx` is called directly in `RelayToCosmos` -/\n")
+		fmt.Fprintf(&b, "def relayGoStmts : Nat := %d\ndef relaySelects : Nat := %d\ndef relayChanTypes : Nat := %d\ndef relayBroadcastDirect : Bool := %s\ndef relayFollowed : List String := %s\n",
+			goStmts, selects, chans, leanBool(broadcastDirect), leanList(followed, true))
 		b.WriteString("\nend Sif.Generated.RelayerLoop\n")
 		return c.WriteLean("RelayerLoop", b.String())
 	}
